@@ -16,6 +16,24 @@ Theorem C15_sign_no_panic : forall rx_match is_utf8 idn sch s claims,
   sign_credential rx_match is_utf8 idn sch s claims <> Panic.
 Proof. exact sign_no_panic. Qed.
 
+(** blind issuance applies the same per-claim rule to what the issuer supplies itself: the type check and
+    every validator at the claim's own schema position; and it honours the label policy (C16) *)
+Theorem C15_blind_sign_decision : forall rx_match is_utf8 idn sch blindable s req known ctx_ok s' i,
+  blind_sign_credential rx_match is_utf8 idn sch blindable s req known ctx_ok = Ok (s', i) <->
+  (length req + length known = length sch)%nat /\ labels_ok blindable req (map fst known) [] = true /\
+  Forall (known_passes rx_match is_utf8 sch) known /\ last_rev known None = Some i /\
+  already_revoked s (idn i) = false /\ ctx_ok = true /\ s' = record s (idn i).
+Proof. exact blind_sign_decision. Qed.
+Theorem C15_blind_sign_no_panic : forall rx_match is_utf8 idn sch blindable s req known ctx_ok,
+  blind_sign_credential rx_match is_utf8 idn sch blindable s req known ctx_ok <> Panic.
+Proof. exact blind_sign_no_panic. Qed.
+Theorem C15_blind_labels_policy : forall blindable known_labels req,
+  labels_ok blindable req known_labels [] = true ->
+  (forall l, In l req -> In l blindable /\ ~ In l known_labels /\ ~ In l []) /\ NoDup req.
+Proof. intros b k r. exact (labels_ok_spec b k r []). Qed.
+Print Assumptions C15_blind_sign_decision.
+Print Assumptions C15_blind_labels_policy.
+
 (** validator semantics: inclusive bounds with the documented defaults, applicability *)
 Theorem C15_range_validator : forall rx_match is_utf8 mn mx n,
   is_valid rx_match is_utf8 (VRange mn mx) (CNumber n) =
